@@ -71,6 +71,44 @@ def run(F, R, tier):
         return
     bb = H.inline_helpers(F, H.body_of(fb), skip=(P + "format_obj",))
     bo = H.inline_helpers(F, H.body_of(fo))
+    # ---- (a0) default justification and where the padding goes ------------------------------------------------------------------
+    from .lib import decide as D
+    from .lib import fmtargs as FA2
+    defaults = []
+    for m in H.walk(bo):
+        if m.get("k") == "match" and not H.is_try(m) and any({H.last(v) for v in H.pat_variants(a["pat"])} == {"Default"} for a in m["arms"]):
+            for a in m["arms"]:
+                if {H.last(v) for v in H.pat_variants(a["pat"])} == {"Default"} and any("SpecJustify::" in (H.ctor_of(x) or "") for x in H.walk(a["body"])):
+                    defaults.append(a["body"])
+    ok, det = bool(defaults), "no `Default => ..` arm that chooses a justification"
+    for d_ in defaults:
+        rows, why = D.table_expr(F, d_)
+        if rows is None:
+            ok, det = False, why
+            break
+        o2, det = D.check(rows, [(r"^\w+ : Object$", "kind")], {"kind": ("Integer", "Float", "Byte", "Str", "Char", "Bool", "Null", "Arr", "Map", "other")},
+                          lambda e: "SpecJustify::Right" if e["kind"] == "Integer" else "SpecJustify::Left")
+        ok = ok and o2
+        if not o2:
+            break
+    R.ob("default-justify", "without `<` / `>` an integer is padded on the left (right-justified), every other value on the right", ok, det, F.loc(fo))
+    place = {}
+    for m in H.walk(bo):
+        if m.get("k") == "match" and not H.is_try(m):
+            for a in m["arms"]:
+                vs = {H.last(v) for v in H.pat_variants(a["pat"])}
+                if vs in ({"Left"}, {"Right"}):
+                    for _, parts in FA2.sites(a["body"]):
+                        names = [H.render(H.strip(pt[1])) for pt in parts if pt[0] == "arg"]
+                        lits = [pt[1] for pt in parts if pt[0] == "lit"]
+                        if len(names) == 2 and not lits:
+                            place[next(iter(vs))] = names
+    ok = set(place) == {"Left", "Right"} and place["Left"] == list(reversed(place["Right"])) and place["Left"][0] != place["Left"][1]
+    # which of the two is the padding: the one built by repeat()
+    pad_names = {x["pat"]["name"] for x in H.walk(bo) if x.get("k") == "let" and x.get("pat", {}).get("k") == "bind" and x.get("init") is not None
+                 and any(c.get("k") == "mcall" and c["m"] == "repeat" for c in H.walk(x["init"]))}
+    ok = ok and place["Left"][1] in pad_names and place["Right"][0] in pad_names
+    R.ob("default-justify", "Left writes the value then the padding, Right the padding then the value", ok, str(place), F.loc(fo))
     # ---- (a) letter → number format → trait ----------------------------------------------------------------------------------
     letter = {}
     enum_ty = None
